@@ -603,7 +603,10 @@ def _generate_sample_paths(P_cdfs, init_states, random_values, out):
     for i in range(num_reps):
         out[i, 0] = init_states[i]
         for t in range(ts_length-1):
-            out[i, t+1] = searchsorted(P_cdfs[out[i, t]], random_values[i, t])
+            cdf = P_cdfs[out[i, t]]
+            # Scale by cdf[-1], which may be slightly below 1 in floating
+            # point, so that the draw never falls beyond the last state
+            out[i, t+1] = searchsorted(cdf, random_values[i, t] * cdf[-1])
 
 
 @jit(nopython=True)
@@ -647,8 +650,8 @@ def _generate_sample_paths_sparse(P_cdfs1d, indices, indptr, init_states,
     for i in range(num_reps):
         out[i, 0] = init_states[i]
         for t in range(ts_length-1):
-            k = searchsorted(P_cdfs1d[indptr[out[i, t]]:indptr[out[i, t]+1]],
-                             random_values[i, t])
+            cdf = P_cdfs1d[indptr[out[i, t]]:indptr[out[i, t]+1]]
+            k = searchsorted(cdf, random_values[i, t] * cdf[-1])
             out[i, t+1] = indices[indptr[out[i, t]]+k]
 
 
@@ -704,7 +707,7 @@ def mc_sample_path(P, init=0, sample_size=1000, random_state=None):
     else:
         cdf0 = np.cumsum(init)
         u_0 = random_state.random()
-        X_0 = searchsorted(cdf0, u_0)
+        X_0 = searchsorted(cdf0, u_0 * cdf0[-1])
 
     mc = MarkovChain(P)
     return mc.simulate(ts_length=sample_size, init=X_0,
